@@ -2,7 +2,8 @@
 // to the promise derived from it, under the cooperative scheduler (yield points of async.h).
 //   Y <cfg> <schedule digits>      cfg in base|derived|both|two, prefixed with r for rejection
 //   F <cfg> <iterations>           free-running stress (no scheduler; meant for the TSan build)
-// Output: f=<parent continuation runs> c1=.. c2=.. c3=.. err=<settler threw>
+// Output: f=<parent continuation runs> c1=.. c2=.. c3=.. err=<settler threw> wrong=<continuations that ran with something else than the
+//         settled value / exception>
 #include <pistache/async.h>
 
 #include <atomic>
@@ -15,6 +16,25 @@ using namespace Pistache;
 struct Scenario
 {
     std::atomic<int> f { 0 }, c1 { 0 }, c2 { 0 }, c3 { 0 }, err { 0 };
+    std::atomic<int> wrong { 0 }; // continuations that ran with something else than the settled outcome
+
+    static bool is_boom(const std::exception_ptr& e)
+    {
+        if (!e)
+            return false;
+        try
+        {
+            std::rethrow_exception(e);
+        }
+        catch (const std::runtime_error& x)
+        {
+            return std::string(x.what()) == "boom";
+        }
+        catch (...)
+        {
+            return false;
+        }
+    }
     Async::Resolver resolver { nullptr };
     Async::Rejection rejection { nullptr };
     Async::Promise<int> base;
@@ -27,8 +47,8 @@ struct Scenario
             rejection = rj.clone();
         })
         , derived(base.then(
-              [this](int v) { ++f; return v + 1; },
-              [this](std::exception_ptr e) { ++f; throw Async::Private::InternalRethrow(std::move(e)); }))
+              [this](int v) { ++f; if (v != 42) ++wrong; return v + 1; },
+              [this](std::exception_ptr e) { ++f; if (!is_boom(e)) ++wrong; throw Async::Private::InternalRethrow(std::move(e)); }))
         , rej(reject_)
     { }
 
@@ -48,11 +68,11 @@ struct Scenario
     }
     void attach_base()
     {
-        base.then([this](int) { ++c1; }, [this](std::exception_ptr) { ++c1; });
+        base.then([this](int v) { ++c1; if (rej || v != 42) ++wrong; }, [this](std::exception_ptr e) { ++c1; if (!rej || !is_boom(e)) ++wrong; });
     }
     void attach_derived(std::atomic<int>& c)
     {
-        derived.then([&c](int) { ++c; }, [&c](std::exception_ptr) { ++c; });
+        derived.then([this, &c](int v) { ++c; if (rej || v != 43) ++wrong; }, [this, &c](std::exception_ptr e) { ++c; if (!rej || !is_boom(e)) ++wrong; });
     }
     std::vector<std::function<void()>> actors(const std::string& cfg)
     {
@@ -77,7 +97,7 @@ struct Scenario
     std::string result()
     {
         std::ostringstream os;
-        os << "f=" << f << " c1=" << c1 << " c2=" << c2 << " c3=" << c3 << " err=" << err;
+        os << "f=" << f << " c1=" << c1 << " c2=" << c2 << " c3=" << c3 << " err=" << err << " wrong=" << wrong;
         return os.str();
     }
 };
@@ -140,7 +160,7 @@ static std::string handle(const std::string& line)
             go = 1;
             for (auto& x : th)
                 x.join();
-            bool ok = sc.f == 1 && sc.err == 0 && (cfg == "base" ? sc.c1 == 1 : true) && (cfg == "derived" ? sc.c2 == 1 : true)
+            bool ok = sc.f == 1 && sc.err == 0 && sc.wrong == 0 && (cfg == "base" ? sc.c1 == 1 : true) && (cfg == "derived" ? sc.c2 == 1 : true)
                 && (cfg == "both" ? (sc.c1 == 1 && sc.c2 == 1) : true) && (cfg == "two" ? (sc.c2 == 1 && sc.c3 == 1) : true);
             if (!ok)
                 ++bad;
